@@ -84,6 +84,7 @@ struct CDynClass {
         if (growth) { nops = (size_t) cfg.range(650, 1600); p.set("growth", 1); }
         for (size_t i = 0; i < nops; ++i) {
             if (growth && work.chance(850)) { p.item('O', "I " + key_text(km.at(work.range(0, km.U))) + " " + std::to_string(next_value++)); continue; }
+            if (!growth && work.chance(12)) { p.item('O', "N"); continue; } // the handle is destroyed and a new, empty container takes its place
             switch (work.below(12)) {
                 case 0: case 1: case 2: case 3: case 4: p.item('O', "I " + key_text(dk()) + " " + std::to_string(next_value++)); break;
                 case 5: case 6: p.item('O', "E " + key_text(dk())); break;
@@ -95,6 +96,7 @@ struct CDynClass {
             }
         }
         p.item('O', "T");
+        { Rng by = sim::stream(g.run_seed, "bystander"); if (by.chance(300)) p.set("bystander", by.range(1, 700)); } // a second container alive all along
         (void) st;
         return p;
     }
@@ -138,6 +140,16 @@ struct CDynClass {
         if (chunks_for(env, bulk.size()) > 1 && sim::g_env_stats.max_team >= 2) st.inc("sim_active_runs");
         std::vector<void *> held;
         size_t updates = 0;
+        // bystander: a second container of the same type, filled once, alive during the whole history and compared at the end
+        // (state shared between handles - statics, caches keyed by something else than the handle - shows up here)
+        typename C::handle bystander = nullptr;
+        Model by_model;
+        if (size_t bn = (size_t) p.get_u("bystander", 0)) {
+            bystander = C::create_empty();
+            gen::KeyMap<K> bkm;
+            for (size_t i = 0; i < bn && bystander; ++i) { K k = bkm.at(std::min<uint64_t>(bkm.U, 7 + 3 * (uint64_t) i)), v = K(1000 + i); if (is_reserved(k) || is_reserved(v)) continue; C::insert(bystander, k, v); by_model[k] = v; }
+            st.inc("bystander_runs");
+        }
 
         auto walk = [&](void *it, typename Model::const_iterator mi, size_t steps, const std::string &what) {
             size_t budget = model.size() + 2, done = 0;
@@ -189,12 +201,32 @@ struct CDynClass {
                 walk(it, model.lower_bound(k), o.a.size() > 1 ? (size_t) o.a[1] : 1, "held iterator");
                 held.push_back(it);
                 st.inc("steps.iterator_held");
+            } else if (o.kind == "N") {
+                for (void *it : held) C::it_destroy(it);
+                held.clear();
+                C::destroy(h);
+                h = C::create_empty();
+                if (!h) { out.fail("create-null", "create_empty() returned NULL"); break; }
+                model.clear();
+                st.inc("steps.handle_recreated");
             } else if (o.kind == "K" && !o.a.empty()) {
                 if (!held.empty()) { size_t j = (size_t) o.a[0] % held.size(); C::it_destroy(held[j]); held.erase(held.begin() + j); st.inc("steps.iterator_destroyed_later"); }
             }
         }
         for (void *it : held) C::it_destroy(it);
-        C::destroy(h);
+        if (bystander) {
+            if (out.ok) {
+                std::swap(h, bystander); std::swap(model, by_model); // walk() works on (h, model)
+                void *it = C::begin(h);
+                walk(it, model.begin(), SIZE_MAX, "bystander container (never touched by the history): begin() + iterator_next to the end");
+                C::it_destroy(it);
+                size_t s = C::size(h);
+                if (out.ok && s != model.size()) out.fail("c-size", "bystander container: size() = " + std::to_string(s) + ", live keys " + std::to_string(model.size()));
+                std::swap(h, bystander); std::swap(model, by_model);
+            }
+            C::destroy(bystander);
+        }
+        if (h) C::destroy(h);
         note_env_stats(st);
         sim::end_run();
         tr.add(sim_stat_decision_hash());
